@@ -1025,6 +1025,40 @@ func cmdDrive(args []string) int {
 					}
 				}
 			}
+			if big && s%5 == 4 {
+				// search a long list for a value it holds more than once (first position counts), and for its last element
+				ls := d.ids("L")
+				var long []int
+				for _, r := range ls {
+					if len(d.cur[r-1].E) >= 40 {
+						long = append(long, r)
+					}
+				}
+				if len(long) > 0 {
+					r := long[rng.Intn(len(long))]
+					e := d.cur[r-1].E
+					n := len(e)
+					count := map[model.Val]int{}
+					var twice []model.Val
+					for _, v := range e {
+						count[v]++
+						if count[v] == 2 {
+							twice = append(twice, v)
+						}
+					}
+					if len(twice) == 0 {
+						v := d.scalar()
+						logged(model.Op{Op: "Replace", R: r, I: n / 3, V: v})
+						logged(model.Op{Op: "Replace", R: r, I: n - 2, V: v})
+						twice = append(twice, v)
+					}
+					v := twice[rng.Intn(len(twice))]
+					logged(model.Op{Op: "IndexOf", R: r, V: v})
+					logged(model.Op{Op: "Contains", R: r, V: v})
+					logged(model.Op{Op: "IndexOf", R: r, V: d.cur[r-1].E[n-1]})
+					logged(model.Op{Op: "IndexOf", R: r, V: model.Val{K: "int", V: 777}})
+				}
+			}
 			if big && s%5 == 2 {
 				// a window that reaches the end of a long list (SubList to the end, Concat with an empty list, Clone),
 				// then shrink-and-grow on one of the two, overwrite on the other: neither may see the other's writes
